@@ -205,12 +205,13 @@ check("C07",
       "after KILL): a request that arrives while the main process runs always leads to kill(-pgid, SIGTERM) first, SIGKILL only after 50 unsuccessful polls, the "
       "runner returns only after the main process is reaped or both bounded waits expired, with a non-zero status, 124 for the timeout (term_takes_effect, "
       "killwait_spec, kill_only_after_term, exit_nonzero_after_signal); without an event nothing is signalled and the exit status is the command's own "
-      "(never_cut_short, exit_faithful). Correspondence: real robsd-exec on process trees (members ignoring SIGTERM, exiting early, a lingering main process that "
+      "(never_cut_short, exit_faithful); a request that arrives between the runner's look at its signal flag and the waitpid of the same iteration also takes "
+      "effect, also when that waitpid reaps the main process (late_signal_takes_effect). Correspondence: real robsd-exec on process trees (members ignoring SIGTERM, exiting early, a lingering main process that "
       "starts a default-disposition member after the TERM wave, runner started with SIGTERM/SIGALRM ignored); SIGTERM while the step runs, right after fork() and "
-      "right before the first waitpid() (shim), regress timeout; exit status, diagnostics, /proc state of every member and the completion marker are checked "
+      "right before the first waitpid(), and on entry to the waitpid that finds the main process already exited (shim), regress timeout; exit status, diagnostics, /proc state of every member and the completion marker are checked "
       "against the property and against the model.",
       "Partial: what kill(-pgid, sig) does to the members of the group (delivery to every member, default disposition dies, SIGKILL cannot be ignored) is the "
-      "kernel's and only sampled; members that leave the process group are outside the property; arrival points are sampled (three offsets + two shim points), "
+      "kernel's and only sampled; members that leave the process group are outside the property; arrival points are sampled (three offsets + three shim points), "
       "the model covers all of them. Trusted: Lean kernel; shim; harness.",
       "DESIGN.md#c07")
 
